@@ -61,7 +61,7 @@ CLAIMS = {
          "substitute (simultaneity: swap tables) of BDD and BCDD interpreted on structured operands and cubes over three modelled "
          "levels and compared with the fold of cofactors / the cofactor / the simultaneous substitution. Decides tag/dualisation "
          "plumbing, unit discipline and the inductive step; not substitute_prepare's table construction nor the induction itself.", "abstract interpretation of HIR dispatch tables", "3.4, 4 C04"),
- "C05": ("E-LIN(+.forget,.mint) + E-FREELIST(.count,.term) + E-CACHE.dm + E-CANON.swap + E-WHO + E-EVENT.gc-order + E-DBG + E-CFG.slabtype: edge linearity on every non-unwind path of every function body "
+ "C05": ("E-SLOT.bound, E-IDX.tagbits, E-SLAB.page (slab page initialisation of the pointer-based store interpreted with integer addresses), E-FREELIST.term.link (free list of the dynamic terminal store interpreted: sweep links, retain predicate, pop, OutOfMemory at the end). E-LIN(+.forget,.mint) + E-FREELIST(.count,.term) + E-CACHE.dm + E-CANON.swap + E-WHO + E-EVENT.gc-order + E-DBG + E-CFG.slabtype: edge linearity on every non-unwind path of every function body "
          "(drop-elaborated MIR) plus the vetted-destructor table; thread-local free lists and node-count deltas are handed to the "
          "shared store by move only; level_swap releases a node's edges before unlinking children; frozen caller sets of the "
          "node-removal primitives and their gates; Manager::gc sweeps all inner-node levels before the terminal table; the apply cache (uncounted edges) stays locked and empty "
@@ -70,7 +70,7 @@ CLAIMS = {
          "compiler instead of being released through the manager, on any path incl. every `?`/out-of-memory path; no slot is on two "
          "free lists. Exactness over histories is not decided.",
          "MIR drop-terminator typestate lint (rustc_private driver) + move-only dataflow + who-may-call", "3.1, 3.8, 3.5, 4 C05"),
- "C03": ("E-UNITS + E-UNITS.pre + E-TABLE.reduce + E-CANON (key, funnel, sites, swap) + E-WHO + E-RAW + E-PERM: unit analysis (VarNo vs LevelNo, both u32 aliases) over all bodies of the managers, "
+ "C03": ("E-TABLE.step for ZBDD restrict / restrict_base (the reviewed direct get_or_insert site: non-empty hi decided semantically, right level view). E-UNITS + E-UNITS.pre + E-TABLE.reduce + E-CANON (key, funnel, sites, swap) + E-WHO + E-RAW + E-PERM: unit analysis (VarNo vs LevelNo, both u32 aliases) over all bodies of the managers, "
          "oxidd-reorder and the rules crates, seeded from the declared signatures; inside level_swap, stale stored level numbers "
          "vs positions; all 12 reduce functions interpreted (no redundant node, BCDD then-edge untagged, node inserted at the level "
          "it is created for); set_child before insert and relabel before insert in level_swap; only oxidd-reorder may call the "
@@ -78,7 +78,7 @@ CLAIMS = {
          "yields a second node with identical children); the loop invariant of set_var_order's level-permutation step. E-TABLE.swap (level_swap's per-node body: relabelling, placement in the right level table, children from the new lower level or the old upper level) and E-VLM (var/level maps mutually inverse). Necessary for 'every node is listed in the level it reports' and 'children on lower levels' after a "
          "reordering; does not decide uniqueness/reducedness over histories.",
          "dimension (unit) analysis over type-checked HIR + HIR table interpretation + who-may-call", "3.10, 3.3, 3.5, 4 C03"),
- "C06": ("E-CACHE + E-CACHE.dm + E-CACHE.substid + E-EVENT + E-WHO + E-TABLE tags: get/add key pairing, memoised value = returned value, injective and "
+ "C06": ("E-CACHE.key: EntryGuard get / set / clear interpreted on a model entry (a hit exactly for the stored operator, operand lists and value counts; 10 single-component deviations miss). Key pairing is binding-aware (a later `let` shadowing a key operand is another key). pre_gc clears each entry through its held guard (lock -> EntryGuard::clear -> forget). E-CACHE + E-CACHE.dm + E-CACHE.substid + E-EVENT + E-WHO + E-TABLE tags: get/add key pairing, memoised value = returned value, injective and "
          "name-consistent computed tags, pairwise disjoint tag sets per rules crate; the direct-mapped cache compares and hashes "
          "all key parts, never blocks on the operation path and keeps entries locked between pre_gc and post_gc; gc/reorder/"
          "add_vars* of both managers emit the invalidation events in order on every path; substitution ids (the cache key of "
